@@ -1310,8 +1310,16 @@ fn analyse(sc: &Scenario, obs: &Obs) -> Case {
                 }
             }
             if alive && obs.t_end > last_ok + max_us {
+                // A report of this very subscription that was started in time and is still
+                // waiting for its confirmation at T_quiet keeps the subscription out of the table
+                // (the wait for a StatusResponse takes up to ~38 s): the overshoot is then caused
+                // by that wait, not by the reporter's deadline - a separate (open) finding.
+                let awaiting = reports
+                    .last()
+                    .map(|a| a.confirmed_at.is_none() && a.start() <= last_ok + max_us && obs.t_end <= a.start() + 45 * SEC)
+                    .unwrap_or(false);
                 failures.push((
-                    "timing:alive-but-silent".into(),
+                    if awaiting { "timing:alive-but-silent:own-report-awaiting-confirmation".into() } else { "timing:alive-but-silent".into() },
                     tag(&format!("the subscription is alive at T_quiet {} but its last confirmed report started at {}", secs(obs.t_end, t0), secs(last_ok, t0))),
                     others_failing,
                 ));
